@@ -403,3 +403,16 @@ def _on_refactoring(prop, id, ref, file, old, new, rule):
 _on_refactoring('C02', 'hb5+wrong-invert', 'HB-5', 'logic_sim.py', 'if op == sim.AOI21: logic.bp4v_not', 'if op == sim.AO21: logic.bp4v_not', 'C02.comp')
 _on_refactoring('C02', 'hb5+wrong-pair', 'HB-5', 'logic_sim.py', 'elif op == sim.OA22 or op == sim.OAI22:', 'elif op == sim.OA22 or op == sim.OAI211:', 'C02.comp')
 _on_refactoring('C02', 'hb5+view-alias', 'HB-5', 'logic_sim.py', 'logic.bp4v_and(scratch, self.c[i1], self.c[i2])', 'logic.bp4v_and(scratch, self.c[i1], scratch)', ['C02.alias', 'C02.bool'])
+
+
+# rules that are decided by evaluation when the code is inside the evaluator subset report under the evaluated rule's id
+_EVALUATED_ALIAS = {
+    'C11': ({'C11.range', 'C11.decl', 'C11.ports', 'C11.pins', 'C11.const', 'C11.names'}, 'C11.netlist'),
+    'C18': ({'C18.chain', 'C18.rank', 'C18.order'}, 'C18.maps'),
+}
+for _m in M:
+    _al = _EVALUATED_ALIAS.get(_m.get('prop'))
+    if _al and _m.get('rule'):
+        _r = _m['rule'] if isinstance(_m['rule'], (list, tuple)) else [_m['rule']]
+        if set(_r) & _al[0] and _al[1] not in _r:
+            _m['rule'] = list(_r) + [_al[1]]
